@@ -1626,12 +1626,18 @@ class G_Into(FieldPicking):
                 type_metas.insert(0, bad)
             applied = True
             reach(ctx, 'Into', 'fault', 'form_type', bad)
-        if sp.random() < 0.5 and len(type_metas) > 1:
-            # several targets inside one attribute, in order
-            add_meta(ctx, inp.attrs, ', '.join(type_metas))
-        else:
-            for m in type_metas:
-                add_meta(ctx, inp.attrs, m)
+        # The written order of the targets decides the order of the emitted impls: it belongs to the request.
+        # The spelling only chooses how consecutive targets are grouped into attributes and where those sit.
+        groups = []
+        for m in type_metas:
+            if groups and sp.random() < 0.5:
+                groups[-1].append(m)
+            else:
+                groups.append([m])
+        positions = sorted(sp.randrange(len(inp.attrs) + 1) for _ in groups)
+        for off, (pos, g) in enumerate(zip(positions, groups)):
+            text = ', '.join(g) + (',' if sp.random() < 0.1 else '')
+            inp.attrs.insert(pos + off, educe(text))
         # ---- fields
         faulted = False
         for v, fs in containers:
@@ -1743,9 +1749,15 @@ def assemble(ctx, metas, extra_attrs=False):
     """distribute meta texts over one or more #[educe(...)] attributes"""
     sp = ctx.sp
     metas = [m for m in metas if m is not None]
+    into_rank = dict((m, i) for i, m in enumerate(metas))
     out = []
     if metas:
         sp.shuffle(metas)
+        # repeated `Into(T)` metas keep their written order: it decides the order of the emitted impls
+        # (and is therefore part of the request, not of its spelling)
+        into_sorted = sorted((m for m in metas if m.lstrip().startswith('Into')), key=lambda m: into_rank.get(m, 0))
+        it = iter(into_sorted)
+        metas = [next(it) if m.lstrip().startswith('Into') else m for m in metas]
         groups = []
         for m in metas:
             if groups and sp.random() < 0.6:
@@ -1754,9 +1766,12 @@ def assemble(ctx, metas, extra_attrs=False):
                 groups.append([m])
         for g in groups:
             s = ', '.join(g)
-            if sp.random() < 0.1:
+            trailing = sp.random() < 0.1
+            if trailing:
                 s += ','
-            out.append(educe(s))
+            a = educe(s)
+            a.metas, a.trailing = list(g), trailing      # kept for C15's `restrict`
+            out.append(a)
     if extra_attrs and sp.random() < 0.3:
         out.insert(sp.randrange(len(out) + 1), pick(sp, OTHER_ATTRS))
     return out
